@@ -304,3 +304,212 @@ Definition sample_metropolis_2d (PDF : T -> T -> T) (s1 s2 : T) (sample thin bur
   | _ => Exit        (* "Domain must be a vector of size 0 or 4" *)
   end.
 End Model.
+
+(** * User functions that draw random numbers themselves (re-entrant / nested use).
+
+    The std::function handed to a sampler may itself call a sampler -- on the generator the outer sampler is
+    working on (a noisy / pseudo-marginal density), or on another generator (a nuisance parameter marginalised
+    with an inner chain).  Such a function is modelled as  x -> state -> res (value * state)  where the state
+    is the pair (stream of the generator the outer sampler was given, everything else the function owns: [A]).
+    The samplers below are the same C++ statements as above with the state threaded through every evaluation of
+    the user function, in the order in which the code evaluates them (operands of `PDF(candidate) / PDF(x)` left
+    to right, as g++ and clang emit them).  The outer sampler only ever touches the first component.
+    A pure function is the special case [fun x s => Ok (f x, s)] (theorems *_st_pure in C18_Proofs_St.v). *)
+Section ModelSt.
+Context {T : Type} (Ops : NumOps T) {A : Type}.
+Declare Scope numst_scope.
+Local Notation "x + y" := (nadd Ops x y) : numst_scope.
+Local Notation "x - y" := (nsub Ops x y) : numst_scope.
+Local Notation "x * y" := (nmul Ops x y) : numst_scope.
+Local Notation "x / y" := (ndiv Ops x y) : numst_scope.
+Delimit Scope numst_scope with nst.
+Local Notation c0 := (n0 Ops).
+Local Notation c1 := (n1 Ops).
+Local Notation c2 := (nofZ Ops 2).
+
+Definition st : Type := (list T * A)%type.
+Definition sfun1 : Type := T -> st -> res (T * st).
+Definition sfun2 : Type := T -> T -> st -> res (T * st).
+Definition lift1 (f : T -> T) : sfun1 := fun x s => Ok (f x, s).
+Definition lift2 (f : T -> T -> T) : sfun2 := fun x y s => Ok (f x y, s).
+
+(** one canonical uniform from the sampler's generator *)
+Definition draw (s : st) : res (T * st) :=
+  match s with
+  | (u :: r, a) => Ok (u, (r, a))
+  | ([], _) => Fuel
+  end.
+
+(** ** Find_Root with a function that has state.  After Max_Iterations the warning prints func(result): one more evaluation. *)
+Fixpoint ridder_st (f : sfun1) (acc : T) (fuel : nat) (x1 x2 f1 f2 result : T) (s : st) : res (T * st) :=
+  match fuel with
+  | O => rbind (f result s) (fun vs => Ok (result, snd vs))
+  | S fuel' =>
+      let x3 := ((x1 + x2) / c2)%nst in
+      rbind (f x3 s) (fun vs3 =>
+        let f3 := fst vs3 in
+        let sc := nmax Ops (nabs Ops f3) (nmax Ops (nabs Ops f1) (nabs Ops f2)) in
+        let g1 := (f1 / sc)%nst in let g2 := (f2 / sc)%nst in let g3 := (f3 / sc)%nst in
+        let x4 := (x3 + (x3 - x1) * nofZ Ops (sign1 Ops (g1 - g2)%nst) * g3 / nsqrt Ops (g3 * g3 - g1 * g2))%nst in
+        let x4 := if nisnan Ops x4 then x3 else x4 in
+        let x4 := nmax Ops (nmin Ops x1 x2) (nmin Ops (nmax Ops x1 x2) x4) in
+        rbind (f x4 (snd vs3)) (fun vs4 =>
+          let f4 := fst vs4 in
+          if neqb Ops f4 c0 then Ok (x4, snd vs4)
+          else
+            let br :=
+              if nneb Ops (sign2 Ops f3 f4) f3 then Some (x3, x4, f3, f4)
+              else if nneb Ops (sign2 Ops f1 f4) f1 then Some (x1, x4, f1, f4)
+              else if nneb Ops (sign2 Ops f2 f4) f2 then Some (x4, x2, f4, f2)
+              else None in
+            match br with
+            | None => Exit
+            | Some (a, b, fa, fb) =>
+                if nltb Ops (nabs Ops (b - a)%nst) acc then Ok (x4, snd vs4)
+                else ridder_st f acc fuel' a b fa fb x4 (snd vs4)
+            end))
+  end.
+
+Definition find_root_st (f : sfun1) (xLeft xRight acc : T) (s : st) : res (T * st) :=
+  let xl := if ngtb Ops xLeft xRight then xRight else xLeft in
+  let xr := if ngtb Ops xLeft xRight then xLeft else xRight in
+  rbind (f xl s) (fun vl => rbind (f xr (snd vl)) (fun vr =>
+    let fl := fst vl in let fr := fst vr in let s2 := snd vr in
+    if nisnan Ops fl || nisnan Ops fr then Exit
+    else if (sign1 Ops fl * sign1 Ops fr >=? 0)%Z then
+      (if neqb Ops fl c0 then Ok (xl, s2) else if neqb Ops fr c0 then Ok (xr, s2) else Exit)
+    else ridder_st f acc (Z.to_nat 2200) xl xr fl fr
+           (nneg Ops (nlit Ops 9900000000000000000000000000000000000000000000000000000000000000000000000000000000000000000000000000 1 5096082013573349 280)) s2)).
+
+(** ** Inverse_Transform_Sampling: xi is drawn first, then Find_Root evaluates xi - cdf(x) *)
+Definition inverse_transform_st (cdf : sfun1) (xMin xMax : T) (s : st) : res (T * st) :=
+  rbind (draw s) (fun us1 =>
+    let xi := unif Ops (fst us1) c0 c1 in
+    find_root_st (fun x s' => rbind (cdf x s') (fun cs => Ok ((xi - fst cs)%nst, snd cs)))
+                 xMin xMax (ndec Ops 1 10000000000 * (xMax - xMin))%nst (snd us1)).
+
+(** ** Rejection_Sampling: x, y are drawn, then PDF(x) is evaluated.  The loop leaves at the 10000th trial at the latest:
+    that literal is the fuel. *)
+Fixpoint rejection_loop_st (fuel : nat) (PDF : sfun1) (xMin xMax yMax : T) (s : st) (count : Z) : res (T * st) :=
+  let count' := count + 1 in
+  if (count' mod 1000 =? 0) && (count' mod 10000 =? 0) then Exit
+  else
+    match fuel with
+    | O => Fuel
+    | S fuel' =>
+        rbind (draw s) (fun us1 => rbind (draw (snd us1)) (fun us2 =>
+          let x := unif Ops (fst us1) xMin xMax in
+          let y := unif Ops (fst us2) c0 yMax in
+          rbind (PDF x (snd us2)) (fun ps =>
+            let pdf := fst ps in
+            if nltb Ops pdf c0 || nisnan Ops pdf || nisnan Ops (pdf - pdf)%nst then Exit
+            else if ngtb Ops pdf yMax && ngtb Ops (relative_difference Ops pdf yMax) (ndec Ops 1 100) then Exit
+            else if nleb Ops y pdf then Ok (x, snd ps)
+            else rejection_loop_st fuel' PDF xMin xMax yMax (snd ps) count')))
+    end.
+Definition rejection_sampling_st (PDF : sfun1) (xMin xMax yMax : T) (s : st) : res (T * st) :=
+  rejection_loop_st (Z.to_nat 10000) PDF xMin xMax yMax s 0.
+
+Fixpoint rejection2_loop_st (fuel : nat) (PDF : sfun2) (xMin xMax yMin yMax zMax : T) (s : st) (count : Z)
+  : res ((T * T) * st) :=
+  let count' := count + 1 in
+  if (count' mod 1000 =? 0) && (count' mod 10000 =? 0) then Exit
+  else
+    match fuel with
+    | O => Fuel
+    | S fuel' =>
+        rbind (draw s) (fun us1 => rbind (draw (snd us1)) (fun us2 => rbind (draw (snd us2)) (fun us3 =>
+          let x := unif Ops (fst us1) xMin xMax in
+          let y := unif Ops (fst us2) yMin yMax in
+          let z := unif Ops (fst us3) c0 zMax in
+          rbind (PDF x y (snd us3)) (fun ps =>
+            let pdf := fst ps in
+            if ngtb Ops pdf zMax && ngtb Ops (relative_difference Ops pdf zMax) (ndec Ops 1 100) then Exit
+            else if nleb Ops z pdf then Ok ((x, y), snd ps)
+            else rejection2_loop_st fuel' PDF xMin xMax yMin yMax zMax (snd ps) count'))))
+    end.
+Definition rejection_sampling_2d_st (PDF : sfun2) (xMin xMax yMin yMax zMax : T) (s : st) : res ((T * T) * st) :=
+  rejection2_loop_st (Z.to_nat 10000) PDF xMin xMax yMin yMax zMax s 0.
+
+(** ** Sample_Metropolis: candidate drawn, then (inside the domain only) PDF(candidate), PDF(x), then the accept deviate *)
+Definition accept1_st (PDF : sfun1) (dom : option (T * T)) (x cand : T) (s : st) : res (T * st) :=
+  let ratio :=
+    rbind (PDF cand s) (fun fc => rbind (PDF x (snd fc)) (fun fx =>
+      Ok (nmin Ops c1 (fst fc / fst fx)%nst, snd fx))) in
+  match dom with
+  | Some (lo, hi) => if nltb Ops cand lo || ngtb Ops cand hi then Ok (c0, s) else ratio
+  | None => ratio
+  end.
+(* every step takes at least two uniforms from the sampler's stream: its length bounds the number of steps (fuel) *)
+Fixpoint metro_loop_st (fuel : nat) (PDF : sfun1) (sigma : T) (dom : option (T * T)) (burn thin imax : Z)
+    (s : st) (i : Z) (x : T) (acc : list T) : res (list T * st) :=
+  if i <? imax then
+    match fuel with
+    | O => Fuel
+    | S fuel' =>
+        rbind (draw s) (fun us1 =>
+        rbind (gauss_of Ops (fst us1) x sigma) (fun cand =>
+        rbind (accept1_st PDF dom x cand (snd us1)) (fun as2 =>
+        rbind (draw (snd as2)) (fun us3 =>
+          let x' := if nltb Ops (unif Ops (fst us3) c0 c1) (fst as2) then cand else x in
+          let acc' := if metro_keep burn thin i then x' :: acc else acc in
+          metro_loop_st fuel' PDF sigma dom burn thin imax (snd us3) (i + 1) x' acc'))))
+    end
+  else Ok (rev acc, s).
+Definition sample_metropolis_st (PDF : sfun1) (sigma : T) (sample thin burn : Z) (domain : list T) (s : st)
+  : res (list T * st) :=
+  let imax := metro_imax burn thin sample in
+  let fuel := S (length (fst s)) in
+  match domain with
+  | [] => rbind (draw s) (fun us1 => rbind (gauss_of Ops (fst us1) c0 sigma) (fun x0 =>
+            metro_loop_st fuel PDF sigma None burn thin imax (snd us1) 0 x0 []))
+  | [lo; hi] => rbind (draw s) (fun us1 =>
+            metro_loop_st fuel PDF sigma (Some (lo, hi)) burn thin imax (snd us1) 0 (unif Ops (fst us1) lo hi) [])
+  | _ => Exit
+  end.
+
+(** ** Sample_Metropolis_2D *)
+Definition accept2_st (PDF : sfun2) (dom : option (T * T * T * T)) (x cand : T * T) (s : st) : res (T * st) :=
+  let ratio :=
+    rbind (PDF (fst cand) (snd cand) s) (fun fc => rbind (PDF (fst x) (snd x) (snd fc)) (fun fx =>
+      Ok (nmin Ops c1 (fst fc / fst fx)%nst, snd fx))) in
+  match dom with
+  | Some (x0, x1, y0, y1) =>
+      if nltb Ops (fst cand) x0 || ngtb Ops (fst cand) x1 || nltb Ops (snd cand) y0 || ngtb Ops (snd cand) y1 then Ok (c0, s)
+      else ratio
+  | None => ratio
+  end.
+Fixpoint metro2_loop_st (fuel : nat) (PDF : sfun2) (s1 s2 : T) (dom : option (T * T * T * T)) (burn thin imax : Z)
+    (s : st) (i : Z) (x : T * T) (acc : list (T * T)) : res (list (T * T) * st) :=
+  if i <? imax then
+    match fuel with
+    | O => Fuel
+    | S fuel' =>
+        rbind (draw s) (fun us1 =>
+        rbind (gauss_of Ops (fst us1) (fst x) s1) (fun ca =>
+        rbind (draw (snd us1)) (fun us2 =>
+        rbind (gauss_of Ops (fst us2) (snd x) s2) (fun cb =>
+          let cand := (ca, cb) in
+          rbind (accept2_st PDF dom x cand (snd us2)) (fun as3 =>
+          rbind (draw (snd as3)) (fun us4 =>
+            let x' := if nltb Ops (unif Ops (fst us4) c0 c1) (fst as3) then cand else x in
+            let acc' := if metro_keep burn thin i then x' :: acc else acc in
+            metro2_loop_st fuel' PDF s1 s2 dom burn thin imax (snd us4) (i + 1) x' acc'))))))
+    end
+  else Ok (rev acc, s).
+Definition sample_metropolis_2d_st (PDF : sfun2) (s1 s2 : T) (sample thin burn : Z) (domain : list T) (s : st)
+  : res (list (T * T) * st) :=
+  let imax := metro_imax burn thin sample in
+  let fuel := S (length (fst s)) in
+  match domain with
+  | [] =>
+      rbind (draw s) (fun us1 => rbind (gauss_of Ops (fst us1) c0 s1) (fun a =>
+      rbind (draw (snd us1)) (fun us2 => rbind (gauss_of Ops (fst us2) c0 s2) (fun b =>
+        metro2_loop_st fuel PDF s1 s2 None burn thin imax (snd us2) 0 (a, b) []))))
+  | [x0; x1; y0; y1] =>
+      rbind (draw s) (fun us1 => rbind (draw (snd us1)) (fun us2 =>
+        metro2_loop_st fuel PDF s1 s2 (Some (x0, x1, y0, y1)) burn thin imax (snd us2) 0
+          (unif Ops (fst us1) x0 x1, unif Ops (fst us2) y0 y1) []))
+  | _ => Exit
+  end.
+End ModelSt.
